@@ -7,9 +7,11 @@ package zzverif
 import (
 	"encoding/json"
 	"fmt"
+	"io/fs"
 	"math"
 	"os"
 	"strings"
+	"time"
 )
 
 type vector struct {
@@ -179,6 +181,58 @@ func LastRegexpSource() string { return "" }
 // LastRegexpSubject returns, under the engine, the last subject handed to MatchString together
 // with a symbolic pattern or subject; natively "".
 func LastRegexpSubject() string { return "" }
+
+// ---- environment bridge (os.LookupEnv / os.Getenv / os.ReadDir under the engine) ----
+
+// Setenv sets an environment variable: natively os.Setenv; under the engine the value is what
+// os.LookupEnv / os.Getenv return inside the code under test.
+func Setenv(k, v string) { os.Setenv(k, v) }
+
+// SetStdin makes b the content of standard input: natively os.Stdin becomes the read end of a
+// pipe fed with b; under the engine (*os.File).Read serves b (then io.EOF).
+func SetStdin(b []byte) {
+	r, w, err := os.Pipe()
+	if err != nil {
+		panic(err)
+	}
+	data := append([]byte(nil), b...)
+	go func() {
+		w.Write(data)
+		w.Close()
+	}()
+	os.Stdin = r
+}
+
+// ReadDirFn, when set, is what os.ReadDir(path) returns under the engine: the entry names (all
+// reported as directories when dirs is true) and whether the directory exists (otherwise
+// os.ReadDir fails with an error for which os.IsNotExist is true). Natively it is ignored: the
+// harness must create the same tree on disk.
+var ReadDirFn func(path string) (names []string, dirs bool, exists bool)
+
+// FakeDirEntry is the fs.DirEntry the engine's os.ReadDir stub returns.
+type FakeDirEntry struct {
+	N   string
+	Dir bool
+}
+
+func (e FakeDirEntry) Name() string { return e.N }
+func (e FakeDirEntry) IsDir() bool  { return e.Dir }
+func (e FakeDirEntry) Type() fs.FileMode {
+	if e.Dir {
+		return fs.ModeDir
+	}
+	return 0
+}
+func (e FakeDirEntry) Info() (fs.FileInfo, error) { return fakeFileInfo{e}, nil }
+
+type fakeFileInfo struct{ e FakeDirEntry }
+
+func (i fakeFileInfo) Name() string       { return i.e.N }
+func (i fakeFileInfo) Size() int64        { return 0 }
+func (i fakeFileInfo) Mode() fs.FileMode  { return i.e.Type() }
+func (i fakeFileInfo) ModTime() time.Time { return time.Time{} }
+func (i fakeFileInfo) IsDir() bool        { return i.e.Dir }
+func (i fakeFileInfo) Sys() any           { return nil }
 
 // Symbolic reports whether the harness runs under the symbolic engine.
 func Symbolic() bool { return false }
